@@ -1,7 +1,7 @@
 """Generates the mapping op server: instantiation matrix -> translation units."""
 from vf.common import ITYPES
 
-KINDS = {'left': 'KLeft', 'right': 'KRight', 'stride': 'KStride', 'lpad': 'KLpad', 'rpad': 'KRpad', 'ulog': 'KUser', 'urev': 'KRev', 'ubc': 'KBc'}
+KINDS = {'left': 'KLeft', 'right': 'KRight', 'stride': 'KStride', 'lpad': 'KLpad', 'rpad': 'KRpad', 'ulog': 'KUser', 'urev': 'KRev', 'ubc': 'KBc', 'ushift': 'KShift'}
 
 def pat_str(pat): return ','.join('D' if p is None else str(p) for p in pat) if pat else '-'
 def cxx_extents(t, pat):
